@@ -43,7 +43,7 @@ impl Case {
     }
 }
 
-type St = State<DefaultUser, DefaultEngine<DefaultUser>>;
+type St = State<DU, DE>;
 
 pub enum ImplResult {
     HistoryFails,
